@@ -58,6 +58,9 @@ CHECKS = {
  "C18": ("exploration", "reader vs abstract flat model (independent EBLIF writer) + compose->parse round trip, nets compared as sets of pins",
          "one instance per statement with model/type/data, model ports with direction, every formal=actual on the named net bit, .conn merging, unconn left open, black boxes as leaf primitives, self-contained; round trip preserves instances, types, data and pin sets.",
          "single driver per net; unique .cname on .subckt/.gate; .conn between scalar nets; dense top-level bus ports; 'unconn' bookkeeping list not compared across the round trip", "4 C18"),
+ "C16": ("exploration", "before/after universe snapshot + byte comparison of repeated outputs + file-object tracking (wrapped builtins.open, weak references) around compose",
+         "for EDIF/Verilog/EBLIF and all composer options: nothing but the documented EDIF side effects changes; second and third compose (after queries) are byte-identical modulo timeStamp and change nothing; every file opened for writing is closed at return, content complete.",
+         "'closed at return' decided under CPython reference counting; netlists the composer refuses are counted, not judged (C03/C04/C18 judge that)", "4 C16"),
 }
 NA = {}
 fixes = subprocess.run(["git", "-C", "/repo", "log", "--format=%h %s"], capture_output=True, text=True).stdout.splitlines()
